@@ -69,6 +69,11 @@ class C18:
     def payload(f):
         n = f["len"]
         if f["op"] == "text":
+            if f["fill"] % 3 == 0 and n >= 4:
+                # valid UTF-8 with 2-, 3- and 4-byte characters, padded with ASCII to exactly n bytes
+                unit = "a\u00e9\u20ac\U0001F600".encode("utf-8")      # 1 + 2 + 3 + 4 = 10 bytes
+                body = unit * (n // len(unit))
+                return body + b"z" * (n - len(body))
             return bytes(0x20 + ((f["fill"] + k) % 0x5F) for k in range(n)) if n < 512 else \
                 (bytes(0x20 + ((f["fill"] + k) % 0x5F) for k in range(95)) * (n // 95 + 1))[:n]
         if f["op"] == "close":
@@ -227,9 +232,9 @@ class C18:
         kind = b["kind"]
         F = http_mod.WebSocketFrame
         if kind == "Text":
-            body = ("x" * n)
+            body = ("x" * n) if n % 2 else ("\u00e9" * (n // 2))       # n bytes either way; non-ASCII for even n
             frame = F.Text(body)
-            payload = body.encode()
+            payload = body.encode("utf-8")
         elif kind == "Binary":
             payload = (bytes(range(256)) * (n // 256 + 1))[:n]
             frame = F.Binary(payload)
